@@ -424,15 +424,18 @@ EqOk(eq) ==
 -----------------------------------------------------------------------------
 (* 3. Anisotropy: exact reduced distances                                    *)
 (*                                                                         *)
-(* Angle codes as in GridGeom: 0..3 = 0, 90, 180, 270 degrees, 4..7 = T,     *)
-(* T+90, T+180, T+270 with cos T = 3/5, sin T = 4/5.  The rotation is        *)
+(* Angle codes: 0..3 = 0, 90, 180, 270 degrees, 4..7 = T, T+90, T+180,      *)
+(* T+270 with cos T = 3/5, sin T = 4/5, 8..11 = -T, 180-T, 90-T, 270-T.      *)
+(* An angle is given to the library in [0, 360[ (rep 0), as the same angle    *)
+(* minus 360 degrees (rep 1: negative) or plus 360 degrees (rep 2).  The rotation is        *)
 (* R = Rz(a1).Ry(a2).Rx(a3) (2-D: Rz(a1)); the k-th range is measured along  *)
 (* the k-th column of R:  r^2 = sum_k ((R^T h)_k / range_k)^2.               *)
 (* Ranges are half-integers m_k / 2.                                        *)
 
 Tup(nd, G(_)) == IF nd = 1 THEN <<G(1)>> ELSE IF nd = 2 THEN <<G(1), G(2)>> ELSE <<G(1), G(2), G(3)>>
 SumN(nd, G(_)) == IF nd = 1 THEN G(1) ELSE IF nd = 2 THEN G(1) + G(2) ELSE G(1) + G(2) + G(3)
-CSD == << <<1, 0, 1>>, <<0, 1, 1>>, <<-1, 0, 1>>, <<0, -1, 1>>, <<3, 4, 5>>, <<-4, 3, 5>>, <<-3, -4, 5>>, <<4, -3, 5>> >>
+CSD == << <<1, 0, 1>>, <<0, 1, 1>>, <<-1, 0, 1>>, <<0, -1, 1>>, <<3, 4, 5>>, <<-4, 3, 5>>, <<-3, -4, 5>>, <<4, -3, 5>>,
+          <<3, -4, 5>>, <<-3, 4, 5>>, <<4, 3, 5>>, <<-4, -3, 5>> >>
 Cn(a) == CSD[a + 1][1]
 Sn(a) == CSD[a + 1][2]
 Dn(a) == CSD[a + 1][3]
@@ -467,20 +470,23 @@ HSeq(nd, hmax) == LET w == 2 * hmax + 1 IN
                   ELSE IF nd = 2 THEN [t \in 1..(w * w) |-> <<((t - 1) % w) - hmax, ((t - 1) \div w) - hmax>>]
                   ELSE [t \in 1..(w * w * w) |-> <<((t - 1) % w) - hmax, (((t - 1) \div w) % w) - hmax, ((t - 1) \div (w * w)) - hmax>>]
 
-GeoCase(nd, m, ang, hmax) ==
+GeoCaseRep(nd, m, ang, hmax, rep) ==
   LET R  == RotOf(nd, ang)
       hs == HSeq(nd, hmax)
       D  == R2Den(nd, R, m) IN
-  [k |-> "geo", d |-> nd, m |-> m, ang |-> ang, R |-> R, den |-> R.d,
+  [k |-> "geo", d |-> nd, m |-> m, ang |-> ang, rep |-> rep, cs |-> [i \in DOMAIN ang |-> CSD[ang[i] + 1]], R |-> R, den |-> R.d,
    hs |-> [t \in DOMAIN hs |-> LET N == R2Num(nd, R, m, hs[t]) IN
              [h |-> hs[t], u |-> Local(nd, R, hs[t]), cmp |-> IF N < D THEN -1 ELSE IF N = D THEN 0 ELSE 1]],
    iso |-> IF \A k \in 1..nd : m[k] = m[1] THEN 1 ELSE 0]
+
+GeoCase(nd, m, ang, hmax) == GeoCaseRep(nd, m, ang, hmax, [i \in DOMAIN ang |-> 0])
 
 GeoOk(g) ==
   LET nd == g.d  R == g.R  D == R2Den(nd, R, g.m) IN
   /\ \A i, j \in 1..nd : SumN(nd, LAMBDA k : R.n[k][i] * R.n[k][j]) = (IF i = j THEN R.d * R.d ELSE 0)     \* R^T R = Id
   /\ \A i, j \in 1..nd : SumN(nd, LAMBDA k : R.n[i][k] * R.n[j][k]) = (IF i = j THEN R.d * R.d ELSE 0)
   /\ Cardinality({ g.hs[t].h : t \in DOMAIN g.hs }) = Len(g.hs)
+  /\ \A i \in DOMAIN g.cs : g.cs[i][1] * g.cs[i][1] + g.cs[i][2] * g.cs[i][2] = g.cs[i][3] * g.cs[i][3] /\ g.rep[i] \in 0..2
   /\ \A t \in DOMAIN g.hs :
        LET h == g.hs[t].h  N == R2Num(nd, R, g.m, h) IN
        /\ N = R2NumQF(nd, R, g.m, h)                                            \* both expressions of the reduced distance agree
@@ -564,6 +570,41 @@ MixPlan(pair, nv, sl, d, rf, psid) ==
    ob |-> IF \A i \in 1..2 : Obligation(pair[i], QI(1), d) \in {"psd", "cpsd"}
           THEN (IF \E i \in 1..2 : Entry(pair[i]).ord >= 0 THEN "cpsd" ELSE "psd") ELSE "unclaimed",
    ord |-> Max2(Entry(pair[1]).ord, Entry(pair[2]).ord)]
+
+-----------------------------------------------------------------------------
+(* 4 bis. What the code ADMITS as shape parameter.  Requests inside the       *)
+(* admitted domain, at its ends, just outside (max + 1/2, 2 max), far outside *)
+(* (1000 max) and negative, through every public route that sets the          *)
+(* parameter.  Obligation: the request is refused (exception, no object) or   *)
+(* the object reports a parameter of the admitted domain (the request itself, *)
+(* a clipped value, the unchanged default) - and then it satisfies the        *)
+(* obligations of the catalogue for the parameter it reports.                 *)
+
+AdmitRequests(e) ==
+  IF e.par = 0 \/ e.space # "rn" THEN {}
+  ELSE { [k |-> "admit", s |-> e.name, r |-> p, cls |-> "inside", ord |-> e.ord] : p \in ParamGrid(e.name, FALSE) }
+       \cup { [k |-> "admit", s |-> e.name, r |-> e.plo, cls |-> "end", ord |-> e.ord],
+              [k |-> "admit", s |-> e.name, r |-> <<-1, 2>>, cls |-> "negative", ord |-> e.ord] }
+       \cup (IF e.phi = Unb THEN {}
+             ELSE { [k |-> "admit", s |-> e.name, r |-> e.phi, cls |-> "end", ord |-> e.ord],
+                    [k |-> "admit", s |-> e.name, r |-> QAdd(e.phi, <<1, 2>>), cls |-> "outside", ord |-> e.ord],
+                    [k |-> "admit", s |-> e.name, r |-> QAdd(e.phi, <<1, 100>>), cls |-> "outside", ord |-> e.ord],
+                    [k |-> "admit", s |-> e.name, r |-> QMul(QI(2), e.phi), cls |-> "outside", ord |-> e.ord],
+                    [k |-> "admit", s |-> e.name, r |-> QMul(QI(1000), e.phi), cls |-> "outside", ord |-> e.ord] })
+AdmitRequestOk(a) == LET e == Entry(a.s) IN
+  /\ IsQ(a.r) /\ e.par = 1
+  /\ a.cls \in {"inside", "end"} => ParamAdmitted(e, a.r)
+  /\ a.cls \in {"outside", "negative"} => ~ParamAdmitted(e, a.r)
+
+\* an admission record: [s, out ("refused" / "set"), rn, rd (parameter reported by the object; rd = 0 when it is none
+\* of the request, the ends of the domain, the default), cls (class of the smallest eigenvalue of the object on a
+\* 1-D lattice, 0 when not measured)]
+AdmitBad(v) ==
+  IF v.out = "refused" THEN {}
+  ELSE IF v.rd = 0 THEN {"reports-an-unexpected-parameter"}
+  ELSE LET e == Entry(v.s)  p == Q(v.rn, v.rd) IN
+       IF ~ParamAdmitted(e, p) THEN {"admits-a-parameter-outside-its-domain"}
+       ELSE IF Obligation(v.s, p, 1) \in {"psd", "cpsd"} /\ v.cls = -1 THEN {"not-positive-semi-definite"} ELSE {}
 
 -----------------------------------------------------------------------------
 (* 5. Judgement of what the real code did (module JudgeCovStructures)         *)
